@@ -67,3 +67,29 @@ def standin_literals(prop, tier, seed, scratch, root):
                                   'where': 'mpd_protocol/src/command.rs', 'rendered': rr.get('output', ''), 'input': {'list': ['foo', 'bar x']}, 'replayed': rr,
                                   'replay_bin': 'cmd_search', 'replay_args': ['literals']})
     return row
+
+
+def standin_frameops(prop, tier, seed, scratch, root):
+    """exhaustive small-scope differential check of Frame::{get,find} (assumed contracts) and the frame iterators against a Vec model"""
+    import replay as RP, json
+    rr = RP.run_bin('frame_ops', scratch, [], timeout=600)
+    row = {'function': 'Frame::get, Frame::find (std iterator adaptors with closures: ASSUMED contracts C19.get / C19.find); also exercises fields/fields_len/is_empty/into_iter',
+           'engine': 'native exhaustive small-scope differential run against a Vec model (replay/src/bin/frame_ops.rs)', 'label': 'bounded',
+           'bound': 'all frames of <= 4 fields over keys {a, A, b} x all sequences of <= 3 get operations over those keys; after every operation find for every key, forward/backward/mixed/owned iteration, fields_len, is_empty',
+           'violations': []}
+    if not rr.get('ran'):
+        row['undecided'] = rr.get('reason', 'did not run'); return row
+    try:
+        j = json.loads(rr.get('full_output', rr['output']).strip().split('\n')[-1])
+    except Exception:
+        row['undecided'] = 'output unreadable: ' + rr.get('output', '')[-300:]; return row
+    if not rr['fails']:
+        row['result'] = 'agree'; row['cases'] = j.get('cases', 0); row['distinct_nontrivial'] = j.get('cases', 0); row['exhaustive'] = True
+        return row
+    row['result'] = 'DEVIATION'; row['deviation'] = j
+    args = ['case', j['fields'], j['ops']]
+    rep = RP.run_bin('frame_ops', scratch, args); rep.pop('full_output', None)
+    row['violations'].append({'props': ['C19'], 'ob': 'C19.frame.model', 'fn': 'Frame', 'message': 'Frame deviates from the ordered multimap model: ' + j.get('why', ''),
+                              'where': 'mpd_protocol/src/response/frame.rs', 'rendered': json.dumps(j), 'input': {'fields': j['fields'], 'ops': j['ops']},
+                              'replayed': rep, 'replay_bin': 'frame_ops', 'replay_args': args})
+    return row
